@@ -36,6 +36,7 @@ import (
 	"google.golang.org/grpc"
 	"google.golang.org/grpc/codes"
 	"google.golang.org/grpc/credentials/insecure"
+	healthpb "google.golang.org/grpc/health/grpc_health_v1"
 	tpb "google.golang.org/grpc/interop/grpc_testing"
 	"google.golang.org/grpc/metadata"
 	"google.golang.org/grpc/status"
@@ -85,6 +86,8 @@ type c16Step struct {
 	N      int        `json:"n,omitempty"`      // burst: overlapping calls
 	Served int        `json:"served,omitempty"` // burst: calls that must be served
 	Open   int        `json:"open,omitempty"`   // burst: connections open at the backend once it is over
+
+	waitDrop func() bool // replay of "d": waits until the closer has closed the backend's old connection
 }
 
 type c16Behaviour struct {
@@ -94,12 +97,15 @@ type c16Behaviour struct {
 	Selftest bool      `json:"selftest,omitempty"` // corrupted on purpose: the harness must reject it
 	Idx      int       `json:"idx,omitempty"`
 	Repeat   int       `json:"repeat,omitempty"` // play the behaviour this often (races do not happen every time)
+	Flap     bool      `json:"flap,omitempty"`   // the backend re-enters the table while its old connection awaits closing
 }
 
 const (
 	c16Stall     = 20 * time.Second
 	c16TickWait  = 5*time.Second + 12*time.Second // the proxy's clean-up period + closing grace + slack
 	c16Recover   = 20 * time.Second               // a recovered backend must be reachable again (gRPC backs off ~1-3 s)
+	c16FlapGrace = 3 * time.Second                // grpcshutdowntimeout of flapping behaviours: room to re-enter and call
+	c16CleanEvery = 5 * time.Second               // the pool's clean-up period (proxy/grpc_handler.go)
 	c16Quiesce   = 5 * time.Second                // connections that lost the race to the pool must be gone
 	c16GrpcGrace = 300 * time.Millisecond
 )
@@ -146,6 +152,14 @@ func c16Msg(seed int64, run, kind, tok string, request bool) proto.Message {
 			return &tpb.StreamingInputCallRequest{Payload: pl}
 		}
 		return &tpb.StreamingInputCallResponse{AggregatedPayloadSize: int32(h % 100000)}
+	case "hcheck", "hwatch":
+		if request {
+			if tok == "q1" {
+				return &healthpb.HealthCheckRequest{} // the server's overall health
+			}
+			return &healthpb.HealthCheckRequest{Service: "c16." + tok}
+		}
+		return &healthpb.HealthCheckResponse{Status: healthpb.HealthCheckResponse_ServingStatus(1 + h%3)}
 	case "sstream", "bidi":
 		if request {
 			return &tpb.StreamingOutputCallRequest{Payload: pl, ResponseParameters: []*tpb.ResponseParameters{{Size: int32(h % 50)}}}
@@ -165,6 +179,10 @@ func c16StatusMsg(tok string) string {
 		return "custom status ünïcödé & more\twith tab"
 	case "nf":
 		return "backend says: no such thing"
+	case "unavail":
+		return "backend is draining, try again"
+	case "quota":
+		return "quota of 100% used"
 	}
 	return tok
 }
@@ -236,8 +254,9 @@ type c16Env struct {
 	mu       sync.Mutex
 	runs     map[string]*c16Run
 	backends map[string]*c16Backend
-	proxy    *grpc.Server
 	paddr    string
+	served   chan error
+	created  time.Time // when the proxy (and with it the pool's clean-up timer) was made
 	cc       *grpc.ClientConn
 	unknown  int64
 	late     int64
@@ -251,7 +270,43 @@ type c16Backend struct {
 	env     *c16Env
 	accepts int64
 	open    int64
+	closedN int64
 	invoked int64
+}
+
+// the health checking protocol, served by the backend like any other service
+type c16Health struct{ b *c16Backend }
+
+func (h *c16Health) Check(ctx context.Context, in *healthpb.HealthCheckRequest) (*healthpb.HealthCheckResponse, error) {
+	ops := c16CtxOps(ctx)
+	got := false
+	ops.recv = func() (proto.Message, error) {
+		if got {
+			return nil, io.EOF
+		}
+		got = true
+		return in, nil
+	}
+	var resp *healthpb.HealthCheckResponse
+	ops.send = func(m proto.Message) error { resp = m.(*healthpb.HealthCheckResponse); return nil }
+	if err := h.b.serve("hcheck", ops); err != nil {
+		return nil, err
+	}
+	return resp, nil
+}
+
+func (h *c16Health) Watch(in *healthpb.HealthCheckRequest, s healthpb.Health_WatchServer) error {
+	ops := c16StreamOps(s)
+	got := false
+	ops.recv = func() (proto.Message, error) {
+		if got {
+			return nil, io.EOF
+		}
+		got = true
+		return in, nil
+	}
+	ops.send = func(m proto.Message) error { return s.Send(m.(*healthpb.HealthCheckResponse)) }
+	return h.b.serve("hwatch", ops)
 }
 
 // down stops the backend: the listener is closed and every connection to it dies.
@@ -272,6 +327,7 @@ func (b *c16Backend) upAgain() error {
 	}
 	b.srv = grpc.NewServer()
 	tpb.RegisterTestServiceServer(b.srv, b)
+	healthpb.RegisterHealthServer(b.srv, &c16Health{b})
 	go b.srv.Serve(&c16Listener{Listener: ln, be: b})
 	return nil
 }
@@ -297,7 +353,9 @@ type c16Conn struct {
 	once sync.Once
 }
 
-func (c *c16Conn) gone() { c.once.Do(func() { atomic.AddInt64(&c.be.open, -1) }) }
+func (c *c16Conn) gone() {
+	c.once.Do(func() { atomic.AddInt64(&c.be.open, -1); atomic.AddInt64(&c.be.closedN, 1) })
+}
 func (c *c16Conn) Read(p []byte) (int, error) {
 	n, err := c.Conn.Read(p)
 	if err != nil {
@@ -618,8 +676,8 @@ func (b *c16Backend) FullDuplexCall(s grpc.BidiStreamingServer[tpb.StreamingOutp
 
 // ---------------------------------------------------------------- environment (proxy + backends + client)
 
-func c16Config() (*config.Config, error) {
-	cfg, err := config.Load([]string{"fabio", "-proxy.grpcshutdowntimeout", c16GrpcGrace.String(), "-registry.backend", "static"}, nil)
+func c16Config(grace time.Duration) (*config.Config, error) {
+	cfg, err := config.Load([]string{"fabio", "-proxy.grpcshutdowntimeout", grace.String(), "-registry.backend", "static"}, nil)
 	if err != nil {
 		return nil, err
 	}
@@ -627,6 +685,10 @@ func c16Config() (*config.Config, error) {
 }
 
 func c16NewEnv(seed int64, names []string) (*c16Env, error) {
+	return c16NewEnvG(seed, names, c16GrpcGrace)
+}
+
+func c16NewEnvG(seed int64, names []string, grace time.Duration) (*c16Env, error) {
 	env := &c16Env{seed: seed, runs: map[string]*c16Run{}, backends: map[string]*c16Backend{}}
 	for _, n := range names {
 		ln, err := net.Listen("tcp", "127.0.0.1:0")
@@ -636,24 +698,50 @@ func c16NewEnv(seed int64, names []string) (*c16Env, error) {
 		}
 		b := &c16Backend{name: n, addr: ln.Addr().String(), env: env, srv: grpc.NewServer()}
 		tpb.RegisterTestServiceServer(b.srv, b)
+		healthpb.RegisterHealthServer(b.srv, &c16Health{b})
 		env.backends[n] = b
 		go b.srv.Serve(&c16Listener{Listener: ln, be: b})
 	}
-	cfg, err := c16Config()
+	cfg, err := c16Config(grace)
 	if err != nil {
 		env.close()
 		return nil, err
 	}
 	mp := metrics.DiscardProvider{}
 	sh := &proxy.GrpcStatsHandler{Connect: mp.NewCounter("c"), Request: mp.NewHistogram("r"), NoRoute: mp.NewCounter("n"), Status: mp.NewHistogram("s", "code")}
-	pl, err := net.Listen("tcp", "127.0.0.1:0")
-	if err != nil {
-		env.close()
-		return nil, err
+	// the listener is started the way main starts it: through proxy.ListenAndServeGRPC with newGrpcProxy's
+	// options (the registry of servers is keyed by the configured address: an explicit free port)
+	env.created = time.Now()
+	opts := newGrpcProxy(cfg, nil, sh)
+	for try := 0; try < 5 && env.paddr == ""; try++ {
+		pl, err := net.Listen("tcp", "127.0.0.1:0")
+		if err != nil {
+			env.close()
+			return nil, err
+		}
+		addr := pl.Addr().String()
+		pl.Close()
+		served := make(chan error, 1)
+		go func() { served <- proxy.ListenAndServeGRPC(config.Listen{Addr: addr, Proto: "grpc"}, opts, nil) }()
+		for i := 0; i < 5000 && env.paddr == ""; i++ {
+			select {
+			case <-served: // the port was taken in the meantime
+				i = 5000
+				continue
+			default:
+			}
+			if c, err := net.DialTimeout("tcp", addr, 100*time.Millisecond); err == nil {
+				c.Close()
+				env.paddr, env.served = addr, served
+			} else {
+				time.Sleep(time.Millisecond)
+			}
+		}
 	}
-	env.paddr = pl.Addr().String()
-	env.proxy = grpc.NewServer(newGrpcProxy(cfg, nil, sh)...)
-	go env.proxy.Serve(pl)
+	if env.paddr == "" {
+		env.close()
+		return nil, fmt.Errorf("the grpc listener did not come up")
+	}
 	env.cc, err = grpc.NewClient("passthrough:///"+env.paddr, grpc.WithTransportCredentials(insecure.NewCredentials()),
 		grpc.WithDefaultCallOptions(grpc.MaxCallRecvMsgSize(8<<20)))
 	if err != nil {
@@ -667,8 +755,12 @@ func (e *c16Env) close() {
 	if e.cc != nil {
 		e.cc.Close()
 	}
-	if e.proxy != nil {
-		e.proxy.Stop()
+	if e.paddr != "" {
+		proxy.CloseProxy(e.paddr)
+		select {
+		case <-e.served:
+		case <-time.After(5 * time.Second):
+		}
 	}
 	for _, b := range e.backends {
 		b.srv.Stop()
@@ -739,7 +831,7 @@ func (e *c16Env) client(ctx context.Context, run *c16Run) *c16Client {
 	req := func(i int) proto.Message { return c16Msg(e.seed, run.id, kind, c.Reqs[i], true) }
 	cl := tpb.NewTestServiceClient(e.cc)
 	switch kind {
-	case "unary", "noroute":
+	case "unary", "noroute", "hcheck":
 		var hdr, trl metadata.MD
 		type result struct {
 			m   proto.Message
@@ -754,6 +846,11 @@ func (e *c16Env) client(ctx context.Context, run *c16Run) *c16Client {
 				go func() {
 					if kind == "noroute" {
 						m, err := tpb.NewUnimplementedServiceClient(e.cc).UnimplementedCall(ctx, &tpb.Empty{}, grpc.Header(&hdr), grpc.Trailer(&trl))
+						ch <- result{m, err}
+						return
+					}
+					if kind == "hcheck" {
+						m, err := healthpb.NewHealthClient(e.cc).Check(ctx, req(i).(*healthpb.HealthCheckRequest), grpc.Header(&hdr), grpc.Trailer(&trl))
 						ch <- result{m, err}
 						return
 					}
@@ -780,6 +877,36 @@ func (e *c16Env) client(ctx context.Context, run *c16Run) *c16Client {
 			},
 			header:  func() metadata.MD { return hdr },
 			trailer: func() metadata.MD { return trl },
+		}
+	case "hwatch":
+		var s healthpb.Health_WatchClient
+		var openErr error
+		return &c16Client{
+			open: func() error { return nil },
+			send: func(i int) error {
+				s, openErr = healthpb.NewHealthClient(e.cc).Watch(ctx, req(i).(*healthpb.HealthCheckRequest))
+				return nil
+			},
+			closeSend: func() error { return nil },
+			recv: func() (proto.Message, error) {
+				if openErr != nil {
+					return nil, openErr
+				}
+				return s.Recv()
+			},
+			header: func() metadata.MD {
+				if s == nil {
+					return nil
+				}
+				h, _ := s.Header()
+				return h
+			},
+			trailer: func() metadata.MD {
+				if s == nil {
+					return nil
+				}
+				return s.Trailer()
+			},
 		}
 	case "sstream":
 		var s grpc.ServerStreamingClient[tpb.StreamingOutputCallResponse]
@@ -988,7 +1115,7 @@ func (e *c16Env) runCallB(st *c16Step, id, drive string, barrier *c16Barrier) (o
 				} else if r.err != nil {
 					note("backend send: %v", r.err)
 				}
-				if c.Kind == "sstream" || c.Kind == "bidi" {
+				if c.Kind == "sstream" || c.Kind == "bidi" || c.Kind == "hwatch" {
 					m, err := cl.recv()
 					if err != nil {
 						note("caller receive: %v", err)
@@ -998,6 +1125,12 @@ func (e *c16Env) runCallB(st *c16Step, id, drive string, barrier *c16Barrier) (o
 						return
 					}
 					obs.Resps = append(obs.Resps, m)
+				}
+			case "d":
+				// the connection this backend had before it left the table is closed now -- the call runs
+				// on, it is on another connection
+				if st.waitDrop != nil && !st.waitDrop() {
+					note("c16-degenerate: the old connection of %s was not seen closing", st.Be)
 				}
 			case "f":
 				if !c.Early && (c.Kind == "unary" || c.Kind == "sstream") {
@@ -1115,6 +1248,9 @@ func (e *c16Env) checkCall(st *c16Step, id string, obs c16Obs, seen c16Seen, nse
 		add("backend-io", "backend: %s", n)
 	}
 	for _, n := range obs.Notes {
+		if strings.HasPrefix(n, "c16-degenerate") {
+			continue
+		}
 		add("caller-io", "caller: %s", n)
 	}
 	return ds
@@ -1132,7 +1268,7 @@ func c16Features(st *c16Step, clause, drive, mode string) map[string]any {
 // ---------------------------------------------------------------- replay of one behaviour on a fresh proxy
 
 type c16Stats struct {
-	calls, ticks, msgs, bursts, outages int64
+	calls, ticks, msgs, bursts, outages, flaps, degenerate int64
 }
 
 func c16Backends(b *c16Behaviour) []string {
@@ -1152,11 +1288,16 @@ func c16Backends(b *c16Behaviour) []string {
 
 // replaySeq returns the failures of the behaviour as (step index, diff).
 func c16ReplaySeq(b *c16Behaviour, seed int64, drive string, stats *c16Stats) (fails []c16Diff, failStep []*c16Step, err error) {
-	env, err := c16NewEnv(seed, c16Backends(b))
+	grace := c16GrpcGrace
+	if b.Flap {
+		grace = c16FlapGrace
+	}
+	env, err := c16NewEnvG(seed, c16Backends(b), grace)
 	if err != nil {
 		return nil, nil, err
 	}
 	defer env.close()
+	flapClosed := map[string]int64{}
 	fail := func(st *c16Step, clause, format string, a ...any) {
 		fails = append(fails, c16Diff{clause, fmt.Sprintf(format, a...)})
 		failStep = append(failStep, st)
@@ -1268,6 +1409,17 @@ func c16ReplaySeq(b *c16Behaviour, seed int64, drive string, stats *c16Stats) (f
 				inv0[n] = atomic.LoadInt64(&be.invoked)
 			}
 			id := fmt.Sprintf("s%d-%d-%d", b.Idx, i, seed)
+			if c0, flapped := flapClosed[st.Be]; flapped {
+				be := env.backends[st.Be]
+				st.waitDrop = func() bool {
+					deadline := time.Now().Add(10 * time.Second)
+					for atomic.LoadInt64(&be.closedN) <= c0 && time.Now().Before(deadline) {
+						time.Sleep(10 * time.Millisecond)
+					}
+					return atomic.LoadInt64(&be.closedN) > c0
+				}
+				defer func(st *c16Step) { st.waitDrop = nil }(st)
+			}
 			var obs c16Obs
 			var seen c16Seen
 			var nseen int
@@ -1301,6 +1453,11 @@ func c16ReplaySeq(b *c16Behaviour, seed int64, drive string, stats *c16Stats) (f
 			}
 			atomic.AddInt64(&stats.calls, 1)
 			atomic.AddInt64(&stats.msgs, int64(len(seen.Reqs)+len(obs.Resps)))
+			for _, n := range obs.Notes {
+				if strings.HasPrefix(n, "c16-degenerate") {
+					stats.degenerate++
+				}
+			}
 			if stall != nil {
 				fail(st, "stall", "step %d: %v", i, stall)
 				return
@@ -1358,6 +1515,18 @@ func c16ReplaySeq(b *c16Behaviour, seed int64, drive string, stats *c16Stats) (f
 				continue // changes nothing an observer could see
 			}
 			atomic.AddInt64(&stats.ticks, 1)
+			if b.Flap {
+				// The backend is to come back while its old connection still awaits closing.  The proxy's
+				// timer cannot be observed before that closing, so the tick is taken to have happened one
+				// second after it was due (if it is later still, the behaviour degenerates to one without a
+				// clean-up and says nothing).
+				for _, n := range st.Closed {
+					flapClosed[n] = atomic.LoadInt64(&env.backends[n].closedN)
+				}
+				time.Sleep(time.Until(env.created.Add(c16CleanEvery + time.Second)))
+				stats.flaps++
+				continue
+			}
 			deadline := time.Now().Add(c16TickWait)
 			for _, n := range st.Closed {
 				be := env.backends[n]
@@ -1613,7 +1782,7 @@ func TestVerifC16(t *testing.T) {
 			}
 		}
 	}
-	verifx.Summary(map[string]any{"behaviours": n - int(selfTotal), "calls": stats.calls, "ticks": stats.ticks, "messages": stats.msgs, "bursts": stats.bursts, "outages": stats.outages,
+	verifx.Summary(map[string]any{"behaviours": n - int(selfTotal), "calls": stats.calls, "ticks": stats.ticks, "messages": stats.msgs, "bursts": stats.bursts, "outages": stats.outages, "flaps": stats.flaps, "flaps_degenerate": stats.degenerate,
 		"distinct_nontrivial": nontrivial, "selftests": selfTotal, "selftests_rejected": selfRejected,
 		"aborted": aborted, "samples": samples, "pid": os.Getpid()})
 }
